@@ -63,7 +63,7 @@ def write_config(wd, c):
             tla_val(set(c["hkinds"])), tla_val(set(c["stopvals"]))))
         f.write("====\n")
     with open(os.path.join(wd, mod + ".cfg"), "w") as f:
-        f.write("SPECIFICATION Spec\nCONSTANTS\n  Cls = \"%s\"\n  Size <- SizeDef\n  Tpl <- TplDef\n  Plan <- PlanDef\n  MaxOps = %d\n  NH = %d\n"
+        f.write("SPECIFICATION Spec\nCONSTANTS\n  Cls = \"%s\"\n  Size <- SizeDef\n  Tpl <- TplDef\n  Plan <- PlanDef\n  MaxOps = %d\n  NH = %d\n  MaxReq = 0\n  MaxTasks = 0\n"
                 % (c["cls"], c["maxops"], c["nh"]))
         f.write("  OpKinds <- OpKindsDef\n  ArmKinds <- ArmKindsDef\n  Outs <- OutsDef\n  SizeVals <- SizeValsDef\n  HKinds <- HKindsDef\n"
                 "  StopVals <- StopValsDef\n  MaxCancelLen = %d\n  Mode = \"%s\"\n  SimDepth = %d\n" % (c["maxcancel"], c["mode"], c["depth"]))
@@ -238,3 +238,72 @@ def generate(tier, seed, wd, log):
         out = rng.sample(out, cap)
     log("TLC produced %d distinct behaviours for replay (%d before de-duplication)" % (len(out), len(scheds)))
     return out
+
+
+# ---- code -> PoolImpl: follow executed schedules in the model (spec/PoolFollow.tla) ---------------------------------------
+def l1_config_of(hcfg):
+    """The PoolImpl constants that correspond to a harness pool configuration."""
+    def plan(p):
+        return {"imm": bool(p.get("imm", False)), "onc": p.get("onc", "prop"), "ecb": p.get("ecb", "none"), "ccb": p.get("ccb", "none"),
+                "bad": set(p.get("bad", []))}
+    if hcfg["cls"] == "SimpleTaskPool":
+        tpl = [dict(DEF_TPL, kind="start", num=n, bad=set()) for n in range(4)]
+        pl = plan(hcfg.get("simple", {}))
+    else:
+        tpl = []
+        for t in hcfg["reqs"]:
+            d = dict(DEF_TPL, kind=t["kind"], num=t["num"], nc=t.get("nc", 1), gname=t.get("gname") or "", notcoro=bool(t.get("notcoro", False)))
+            d.update(plan(t))
+            tpl.append(d)
+        pl = dict(DEF_PLAN, bad=set())
+    return {"cls": hcfg["cls"], "size": hcfg.get("size", -1), "tpl": tpl, "plan": pl}
+
+
+def follow(groups, wd, log):
+    """groups: [(harness cfg, [xlog, ...])] -> (per-run results aligned with the flattened input, states)."""
+    import concurrent.futures as cf
+    import subprocess
+    fwd = os.path.join(wd, "follow")
+    os.makedirs(fwd, exist_ok=True)
+    for f in ("PoolImpl.tla", "PoolFollow.tla"):
+        shutil.copy(os.path.join(common.SPEC, f), os.path.join(fwd, f))
+
+    def one(arg):
+        n, (hcfg, xlogs) = arg
+        c = l1_config_of(hcfg)
+        mod = "FW_%d" % n
+        with open(os.path.join(fwd, mod + ".tla"), "w") as f:
+            f.write("---- MODULE %s ----\nEXTENDS PoolFollow\nTplDef == %s\nPlanDef == %s\nSizeDef == %d\nEmptyDef == {}\n====\n"
+                    % (mod, tla_val(c["tpl"]), tla_val(c["plan"]), c["size"]))
+        with open(os.path.join(fwd, mod + ".cfg"), "w") as f:
+            f.write("SPECIFICATION FSpec\nCONSTANTS\n  Cls = \"%s\"\n  Size <- SizeDef\n  Tpl <- TplDef\n  Plan <- PlanDef\n  MaxOps = 0\n  NH = 8\n"
+                    "  OpKinds <- EmptyDef\n  ArmKinds <- EmptyDef\n  MaxReq = 14\n  MaxTasks = 40\nINVARIANT Report\nCHECK_DEADLOCK FALSE\n" % c["cls"])
+        path = os.path.join(fwd, mod + ".json")
+        with open(path, "w") as f:
+            json.dump(xlogs, f, separators=(",", ":"))
+        env = dict(os.environ, TRACE_FILE=path)
+        env["JAVA_TOOL_OPTIONS"] = "-Dtlc2.tool.queue.IStateQueue=MemStateQueue"
+        try:
+            p = subprocess.run(["tlc", "-workers", "2", "-metadir", os.path.join(fwd, "meta-" + mod), "-noGenerateSpecTE", "-config", mod + ".cfg", mod + ".tla"],
+                               cwd=fwd, env=env, stdout=subprocess.PIPE, stderr=subprocess.STDOUT, text=True, timeout=1800)
+            stdout = p.stdout
+        except subprocess.TimeoutExpired:
+            stdout = ""
+        shutil.rmtree(os.path.join(fwd, "meta-" + mod), ignore_errors=True)
+        try:
+            res = {v["tid"]: v for v in common.parse_printed_json(stdout, "FOLLOW")}
+        except common.MachineryError:
+            res = {}
+        if "No error has been found" not in stdout or len(res) < len(xlogs):
+            open(os.path.join(fwd, mod + ".out"), "w").write(stdout)
+            # a run the model cannot follow at all counts as drift (bad = -1), never as a failure of the check
+            return [res.get(i + 1, {"tid": i + 1, "n": 0, "bad": -1}) for i in range(len(xlogs))], 0
+        os.remove(path)
+        return [res[i + 1] for i in range(len(xlogs))], common.tlc_stats(stdout)[0]
+
+    out, states = [], 0
+    with cf.ThreadPoolExecutor(max_workers=max(2, common.NCPU // 2)) as ex:
+        for rs, st in ex.map(one, list(enumerate(groups))):
+            out += rs
+            states += st
+    return out, states
